@@ -6,52 +6,79 @@
    process created the segment), new_shm_existing / new_shm_create = NewSHM on an existing / a missing key, unload = Number, Loaded := 0).
    hd s h = HashHead[h], nx s x = NextInHash[x], idf s x = Userid[x]; chain nx p l = following nx from p visits
    exactly the nodes l and then reaches the -1 terminator; on_chain s x = x is a node of the chain of some bucket;
-   id_eq_ci = equality of ids up to letter case (Cstrcasecmp == 0); uhash = StringHashWithHashBits. *)
+   id_eq_ci = equality of ids up to letter case (Cstrcasecmp == 0); uhash = StringHashWithHashBits.
+   Every theorem is stated for ANY constants K (MAX_USERS, HASH_BITS, PRE_ALLOCATED_USERS, SHM_VERSION, SHM_RAW_SZ) that are consts_ok: MAX_USERS >= 1, HASH_BITS >= 0,
+   the empty id not hashing to bucket 0, the fuel fields being MAX_USERS and MAX_USERS + 1. Nothing relates MAX_USERS to PRE_ALLOCATED_USERS or to 2^HASH_BITS. The
+   two build configurations are instances (C04_configurations): K_default from Gen/Consts_default.v (MAX_USERS 50), K_docker from Gen/Consts_docker.v (-tags docker,
+   MAX_USERS 2 000 000 > PRE_ALLOCATED_USERS + 2^HASH_BITS). The extracted model the harness runs is this same model at K_default ("1|..") and at K_docker ("11|..").
+   SHMVER / SHMSZ = cache.SHM_VERSION / cache.SHM_RAW_SZ of the configuration. *)
 From Verif Require Import Base.Common Base.TMap Gen.Consts_default Model.C04 Proofs.C04_chain Proofs.C04.
+From Verif Require Gen.Consts_docker.
+
+(* what consts_ok asks, spelled out *)
+Theorem C04_consts_ok_meaning : forall (K : consts), consts_ok K <->
+  0 < MAXU /\ 0 <= HASHBITS /\ cmsys.FNV1_32_INIT mod 2 ^ HASHBITS <> 0 /\ FUEL_MAXU = Z.to_nat MAXU /\ FUEL_LOADER = S (Z.to_nat MAXU).
+Proof. intros K; exact (conj (fun H => H) (fun H => H)). Qed.
+Print Assumptions C04_consts_ok_meaning.
+
+(* both configurations of the repository satisfy it; the default table is smaller than the cap on free records and than the number of buckets, the production
+   table is larger than both together; id size, IDLEN, hash and cap are the same in both *)
+Theorem C04_configurations :
+  consts_ok K_default /\ consts_ok K_docker /\
+  @MAXU K_default = Consts_default.ptttype.MAX_USERS /\ @MAXU K_docker = Gen.Consts_docker.ptttype.MAX_USERS /\
+  @PREALLOC K_default = Consts_default.cache.PRE_ALLOCATED_USERS /\ @PREALLOC K_docker = Gen.Consts_docker.cache.PRE_ALLOCATED_USERS /\
+  @HASHBITS K_default = Consts_default.ptttype.HASH_BITS /\ @HASHBITS K_docker = Gen.Consts_docker.ptttype.HASH_BITS /\
+  (@MAXU K_default <= @PREALLOC K_default /\ @MAXU K_default < @HASHN K_default /\
+   @PREALLOC K_docker + @HASHN K_docker < @MAXU K_docker /\
+   @PREALLOC K_docker = @PREALLOC K_default /\ @HASHBITS K_docker = @HASHBITS K_default /\
+   Gen.Consts_docker.ptttype.USER_ID_SZ = ptttype.USER_ID_SZ /\ Gen.Consts_docker.ptttype.IDLEN = ptttype.IDLEN /\
+   Gen.Consts_docker.cmsys.FNV1_32_INIT = cmsys.FNV1_32_INIT /\ Gen.Consts_docker.cmsys.FNV_32_PRIME = cmsys.FNV_32_PRIME).
+Proof. exact (conj K_default_ok (conj K_docker_ok (conj eq_refl (conj eq_refl (conj eq_refl (conj eq_refl (conj eq_refl (conj eq_refl consts_shared)))))))). Qed.
+Print Assumptions C04_configurations.
 
 (* the invariant, spelled out: every bucket's chain is finite, ends in -1, has no duplicate node, stays inside
    0..MAX_USERS-1, and every node's id hashes to that bucket *)
-Theorem C04_WF_meaning : forall s, WF s <->
+Theorem C04_WF_meaning : forall (K : consts), consts_ok K -> forall s, WF s <->
   (forall h, 0 <= h < HASHN -> exists l, chain (nx s) (hd s h) l /\ NoDup l /\
      (forall x, In x l -> in_range x = true /\ uhash (idf s x) = h)).
-Proof. exact WF_unfold. Qed.
+Proof. intros K _; exact (@WF_unfold K). Qed.
 Print Assumptions C04_WF_meaning.
 
 (* ... hence a slot is on at most one chain, the one its id's hash selects, once, and chains have at most MAX_USERS nodes *)
-Theorem C04_one_chain : forall s x h l, WF s -> 0 <= h < HASHN -> chain (nx s) (hd s h) l -> In x l ->
+Theorem C04_one_chain : forall (K : consts), consts_ok K -> forall s x h l, WF s -> 0 <= h < HASHN -> chain (nx s) (hd s h) l -> In x l ->
   uhash (idf s x) = h /\ NoDup l /\ (length l <= Z.to_nat MAXU)%nat /\ in_range x = true.
-Proof. exact one_chain. Qed.
+Proof. intros K _; exact (@one_chain K). Qed.
 Print Assumptions C04_one_chain.
 
 (* the hash does not see letter case (so a lookup in any case walks the bucket the id was filed under) *)
-Theorem C04_hash_ignores_case : forall a b, id_eq_ci a b = true -> uhash a = uhash b.
-Proof. exact id_eq_ci_hash. Qed.
+Theorem C04_hash_ignores_case : forall (K : consts), consts_ok K -> forall a b, id_eq_ci a b = true -> uhash a = uhash b.
+Proof. intros K _; exact (@id_eq_ci_hash K). Qed.
 Print Assumptions C04_hash_ignores_case.
 
 (* AddToUHash on a slot that is on no chain: succeeds, keeps the invariant, files the slot (and only it) *)
-Theorem C04_wf_add : forall s slot id, WF s -> in_range slot = true -> ~ on_chain s slot ->
+Theorem C04_wf_add : forall (K : consts), consts_ok K -> forall s slot id, WF s -> in_range slot = true -> ~ on_chain s slot ->
   exists s', add_to_uhash s slot id = Ok (s', 0) /\ WF s' /\ idf s' slot = id /\ (forall x, x <> slot -> idf s' x = idf s x) /\
     (forall x, on_chain s' x <-> on_chain s x \/ x = slot) /\ number s' = number s /\ loaded s' = loaded s.
-Proof. exact add_wf. Qed.
+Proof. exact (@add_wf). Qed.
 Print Assumptions C04_wf_add.
 
 (* RemoveFromUHash: succeeds, keeps the invariant, takes exactly that slot off its chain (head, middle or tail), touches no id *)
-Theorem C04_wf_remove : forall s slot, WF s -> in_range slot = true ->
+Theorem C04_wf_remove : forall (K : consts), consts_ok K -> forall s slot, WF s -> in_range slot = true ->
   exists s', remove_from_uhash s slot = Ok (s', 0) /\ WF s' /\ (forall x, idf s' x = idf s x) /\
     (forall x, on_chain s' x <-> on_chain s x /\ x <> slot) /\ number s' = number s /\ loaded s' = loaded s.
-Proof. exact remove_wf. Qed.
+Proof. exact (@remove_wf). Qed.
 Print Assumptions C04_wf_remove.
 
 (* SetUserID on a valid uid = rename / assign: the slot holds the new id and is indexed under it; everything else is as before *)
-Theorem C04_wf_set : forall s uid id, WF s -> 1 <= uid <= MAXU ->
+Theorem C04_wf_set : forall (K : consts), consts_ok K -> forall s uid id, WF s -> 1 <= uid <= MAXU ->
   exists s', set_user_id s uid id = Ok (s', 0) /\ WF s' /\ idf s' (uid - 1) = id /\ (forall x, x <> uid - 1 -> idf s' x = idf s x) /\
     (forall x, on_chain s' x <-> on_chain s x \/ x = uid - 1) /\ number s' = number s /\ loaded s' = loaded s.
-Proof. exact set_wf. Qed.
+Proof. exact (@set_wf). Qed.
 Print Assumptions C04_wf_set.
 
 (* ... and an invalid uid is refused with the state untouched *)
-Theorem C04_set_invalid : forall s uid id, ~ (1 <= uid <= MAXU) -> set_user_id s uid id = Ok (s, ERR_INVALID_UID).
-Proof. exact set_invalid. Qed.
+Theorem C04_set_invalid : forall (K : consts), consts_ok K -> forall s uid id, ~ (1 <= uid <= MAXU) -> set_user_id s uid id = Ok (s, ERR_INVALID_UID).
+Proof. intros K _; exact (@set_invalid K). Qed.
 Print Assumptions C04_set_invalid.
 
 (* what "holds the queried id up to letter case" means below: id_eq_ci compares the WHOLE NUL-terminated ids (Cstrcasecmp == 0), so an id
@@ -63,62 +90,121 @@ Proof. exact (fun a b => conj (match_whole_id a b) (match_same_length a b)). Qed
 Print Assumptions C04_match_is_whole_id.
 
 (* a lookup that answers a uid names an indexed slot holding the queried id up to letter case *)
-Theorem C04_search_sound : forall s q v, WF s -> do_search_user_raw s q = Ok v -> v <> 0 ->
+Theorem C04_search_sound : forall (K : consts), consts_ok K -> forall s q v, WF s -> do_search_user_raw s q = Ok v -> v <> 0 ->
   in_range (v - 1) = true /\ on_chain s (v - 1) /\ id_eq_ci q (idf s (v - 1)) = true.
-Proof. exact search_sound. Qed.
+Proof. exact (@search_sound). Qed.
 Print Assumptions C04_search_sound.
 
 (* any letter case of an id held by an indexed slot (and by no other indexed slot in any case) returns that slot *)
-Theorem C04_search_complete : forall s x q, WF s -> on_chain s x -> unique_ci s x -> id_eq_ci q (idf s x) = true ->
+Theorem C04_search_complete : forall (K : consts), consts_ok K -> forall s x q, WF s -> on_chain s x -> unique_ci s x -> id_eq_ci q (idf s x) = true ->
   do_search_user_raw s q = Ok (x + 1).
-Proof. exact search_complete. Qed.
+Proof. exact (@search_complete). Qed.
 Print Assumptions C04_search_complete.
 
 (* an id no indexed slot holds in any letter case returns 0 *)
-Theorem C04_search_absent : forall s q, WF s -> (forall y, on_chain s y -> id_eq_ci q (idf s y) = false) ->
+Theorem C04_search_absent : forall (K : consts), consts_ok K -> forall s q, WF s -> (forall y, on_chain s y -> id_eq_ci q (idf s y) = false) ->
   do_search_user_raw s q = Ok 0.
-Proof. exact search_absent. Qed.
+Proof. exact (@search_absent). Qed.
 Print Assumptions C04_search_absent.
 
 (* termination: in a well-formed state no operation panics or runs out of fuel (the loops bounded by MAX_USERS never hit
    their bound, the loader's unbounded loops end), and every chain ends within MAX_USERS nodes *)
-Theorem C04_no_fuel_exhaustion : forall s, WF s ->
+Theorem C04_no_fuel_exhaustion : forall (K : consts), consts_ok K -> forall s, WF s ->
   (forall q, exists v, search_user_raw s q = Ok v) /\
   (forall uid id, exists s' e, set_user_id s uid id = Ok (s', e)) /\
   (forall slot, in_range slot = true -> exists s', remove_from_uhash s slot = Ok (s', 0)) /\
   (forall slot id, in_range slot = true -> ~ on_chain s slot -> exists s', add_to_uhash s slot id = Ok (s', 0)) /\
   (forall recs, lenZ recs <= MAXU -> agrees s recs -> exists s', load_uhash s recs = Ok s') /\
   (forall h, hash_ok h -> exists l, chain (nx s) (hd s h) l /\ (length l <= Z.to_nat MAXU)%nat).
-Proof. exact no_fuel_exhaustion. Qed.
+Proof. exact (@no_fuel_exhaustion). Qed.
 Print Assumptions C04_no_fuel_exhaustion.
 
 (* a cold load (Number = Loaded = 0) of any .PASSWDS of at most MAX_USERS records builds a well-formed index
    from ANY prior content of the segment, garbage and cycles included *)
-Theorem C04_wf_cold_load : forall s0 recs, lenZ recs <= MAXU ->
+Theorem C04_wf_cold_load : forall (K : consts), consts_ok K -> forall s0 recs, lenZ recs <= MAXU ->
   exists s', load_uhash (unload s0) recs = Ok s' /\ WF s' /\ number s' = lenZ recs /\ loaded s' = 1.
-Proof. exact cold_load_wf. Qed.
+Proof. exact (@cold_load_wf). Qed.
 Print Assumptions C04_wf_cold_load.
 
-(* ... and that index is exactly the file's: record k sits in slot k and is on a chain, no other slot is indexed, ids beyond the
-   file keep their bytes (MAX_USERS <= PRE_ALLOCATED_USERS, so the cap on empty-id records never skips one) *)
-Theorem C04_cold_load_exact : forall s0 recs, lenZ recs <= MAXU ->
+(* ... and that index is exactly the file's. In the default build (MAX_USERS <= PRE_ALLOCATED_USERS, so the cap on free records never skips one): record k sits
+   in slot k and is on a chain, no other slot is indexed, ids beyond the file keep their bytes *)
+Theorem C04_cold_load_exact : forall s0 recs, lenZ recs <= @MAXU K_default ->
+  exists s', @load_uhash K_default (unload s0) recs = Ok s' /\ @WF K_default s' /\ number s' = lenZ recs /\ loaded s' = 1 /\
+    (forall k id, nth_error recs k = Some id -> idf s' (Z.of_nat k) = id) /\
+    (forall x, ~ (0 <= x < lenZ recs) -> idf s' x = idf s0 x) /\
+    (forall x, @on_chain K_default s' x <-> 0 <= x < lenZ recs).
+Proof. exact cold_load_exact_default. Qed.
+Print Assumptions C04_cold_load_exact.
+
+(* ... for ANY constants the same holds of a file of at most PRE_ALLOCATED_USERS records ... *)
+Theorem C04_cold_load_exact_small_file : forall (K : consts), consts_ok K -> forall s0 recs, lenZ recs <= MAXU -> lenZ recs <= PREALLOC ->
   exists s', load_uhash (unload s0) recs = Ok s' /\ WF s' /\ number s' = lenZ recs /\ loaded s' = 1 /\
     (forall k id, nth_error recs k = Some id -> idf s' (Z.of_nat k) = id) /\
     (forall x, ~ (0 <= x < lenZ recs) -> idf s' x = idf s0 x) /\
     (forall x, on_chain s' x <-> 0 <= x < lenZ recs).
-Proof. exact cold_load_exact. Qed.
-Print Assumptions C04_cold_load_exact.
+Proof. exact (@cold_load_exact). Qed.
+Print Assumptions C04_cold_load_exact_small_file.
+
+(* ... and of ANY file (the production build: MAX_USERS = 2 000 000 records, deleted accounts leaving thousands of free records between live ones) the cold load
+   stores and indexes exactly the FILED records, where [filed 0 recs] is the loader's cap: a record without a valid id (a free slot) is filed only while at most
+   PRE_ALLOCATED_USERS such records have been seen (C04_filed_meaning). Every record WITH a valid id is filed - stored in its slot and put on a chain - wherever
+   it is in the file and however many free records precede it; nothing that is not a filed record of the file is on a chain; the other ids keep their bytes *)
+Theorem C04_cold_load_any_file : forall (K : consts), consts_ok K -> forall s0 recs, lenZ recs <= MAXU ->
+  exists s', load_uhash (unload s0) recs = Ok s' /\ WF s' /\ number s' = lenZ recs /\ loaded s' = 1 /\
+    (forall k id, nth_error recs k = Some id -> nth k (filed 0 recs) false = true -> idf s' (Z.of_nat k) = id /\ on_chain s' (Z.of_nat k)) /\
+    (forall k id, nth_error recs k = Some id -> is_valid_id id = true -> idf s' (Z.of_nat k) = id /\ on_chain s' (Z.of_nat k)) /\
+    (forall x, on_chain s' x -> exists k, x = Z.of_nat k /\ (k < length recs)%nat /\ nth k (filed 0 recs) false = true) /\
+    (forall x, (forall k, x = Z.of_nat k -> nth k (filed 0 recs) false = false) -> idf s' x = idf s0 x).
+Proof. exact (@cold_load_general). Qed.
+Print Assumptions C04_cold_load_any_file.
+
+(* the cap, spelled out: a record with a valid id is filed whatever precedes it; while (records without a valid id seen so far) + (records left) cannot exceed
+   PRE_ALLOCATED_USERS every record is filed; a record that is not filed has no valid id *)
+Theorem C04_filed_meaning : forall (K : consts),
+  (forall recs cnt k id, nth_error recs k = Some id -> is_valid_id id = true -> nth k (filed cnt recs) false = true) /\
+  (forall recs cnt k, cnt + lenZ recs <= PREALLOC -> (k < length recs)%nat -> nth k (filed cnt recs) false = true) /\
+  (forall recs cnt k id, nth_error recs k = Some id -> nth k (filed cnt recs) false = false -> is_valid_id id = false) /\
+  (forall cnt id r, filed cnt (id :: r) = negb (negb (is_valid_id id) && (PREALLOC <? cnt + 1)) :: filed (if is_valid_id id then cnt else cnt + 1) r).
+Proof. intros K; exact (conj (@filed_valid K) (conj (@filed_all_small K) (conj (@not_filed_invalid K) (fun cnt id r => eq_refl)))). Qed.
+Print Assumptions C04_filed_meaning.
+
+(* ... in terms of lookups, for ANY constants: after a cold load a user of the file - a record with a valid id that no other record carries in any letter case - is
+   found in every letter case at its slot (uid = record number + 1), wherever it is in the file and however many free records precede it *)
+Theorem C04_cold_load_finds_every_user : forall (K : consts), consts_ok K -> forall s0 recs, lenZ recs <= MAXU ->
+  exists s', load_uhash (unload s0) recs = Ok s' /\ WF s' /\
+    forall k id q, nth_error recs k = Some id -> is_valid_id id = true ->
+      (forall j id', nth_error recs j = Some id' -> id_eq_ci id' id = true -> j = k) ->
+      id_eq_ci q id = true -> search_user_raw s' q = Ok (Z.of_nat k + 1).
+Proof. exact (@cold_load_finds_users). Qed.
+Print Assumptions C04_cold_load_finds_every_user.
+
+(* ... instantiated for the production build *)
+Theorem C04_docker_cold_load_finds_every_user : forall s0 recs, lenZ recs <= Gen.Consts_docker.ptttype.MAX_USERS ->
+  exists s', @load_uhash K_docker (unload s0) recs = Ok s' /\ @WF K_docker s' /\
+    forall k id q, nth_error recs k = Some id -> is_valid_id id = true ->
+      (forall j id', nth_error recs j = Some id' -> id_eq_ci id' id = true -> j = k) ->
+      id_eq_ci q id = true -> @search_user_raw K_docker s' q = Ok (Z.of_nat k + 1).
+Proof. exact (@cold_load_finds_users K_docker K_docker_ok). Qed.
+Print Assumptions C04_docker_cold_load_finds_every_user.
 
 (* LoadUHash on a well-formed segment from a .PASSWDS that agrees with the live table keeps it well-formed ... *)
-Theorem C04_wf_reload : forall s recs, WF s -> lenZ recs <= MAXU -> agrees s recs ->
+Theorem C04_wf_reload : forall (K : consts), consts_ok K -> forall s recs, WF s -> lenZ recs <= MAXU -> agrees s recs ->
   exists s', load_uhash s recs = Ok s' /\ WF s' /\ number s' = lenZ recs.
-Proof. exact reload_wf. Qed.
+Proof. exact (@reload_wf). Qed.
 Print Assumptions C04_wf_reload.
 
+(* ... and, into a loaded segment (the on-the-fly branch), puts every record with a valid id on a chain - also one that was on none before - however many
+   free records precede it in the file *)
+Theorem C04_reload_indexes_every_user : forall (K : consts), consts_ok K -> forall s recs, WF s -> loaded s <> 0 -> lenZ recs <= MAXU -> agrees s recs ->
+  exists s', load_uhash s recs = Ok s' /\ WF s' /\ (forall x, idf s' x = idf s x) /\ (forall x, on_chain s x -> on_chain s' x) /\
+    (forall k id, nth_error recs k = Some id -> is_valid_id id = true -> on_chain s' (Z.of_nat k) /\ cstr_eq id (idf s' (Z.of_nat k)) = true).
+Proof. exact (@reload_indexes_users). Qed.
+Print Assumptions C04_reload_indexes_every_user.
+
 (* ... and, into a loaded segment (the on-the-fly branch: checkHash over all 2^16 buckets, then re-add), changes no id and drops no slot *)
-Theorem C04_reload_keeps : forall s recs, WF s -> loaded s <> 0 -> lenZ recs <= MAXU -> agrees s recs ->
+Theorem C04_reload_keeps : forall (K : consts), consts_ok K -> forall s recs, WF s -> loaded s <> 0 -> lenZ recs <= MAXU -> agrees s recs ->
   exists s', load_uhash s recs = Ok s' /\ WF s' /\ (forall x, idf s' x = idf s x) /\ (forall x, on_chain s x -> on_chain s' x).
-Proof. exact reload_keeps. Qed.
+Proof. exact (@reload_keeps). Qed.
 Print Assumptions C04_reload_keeps.
 
 (* WHO loads does not matter: LoadUHash by any process p - the creator of the segment (IsNew) or a process that attached to a
@@ -126,73 +212,107 @@ Print Assumptions C04_reload_keeps.
    another process and never loaded, unloaded with garbage and cycles left behind) terminates with a well-formed, loaded index
    that is exactly the file's (record k in slot k, on a chain; no other slot indexed);
    (2) on a well-formed segment, from an agreeing .PASSWDS, terminates and keeps it well-formed. Afterwards every lookup terminates *)
-Theorem C04_load_any_process : forall (p : proc) s recs, lenZ recs <= MAXU ->
+Theorem C04_load_any_process : forall (p : proc) s recs, lenZ recs <= @MAXU K_default ->
+  (number s = 0 -> loaded s = 0 ->
+     exists s', @load_uhash_by K_default p s recs = Ok s' /\ @WF K_default s' /\ number s' = lenZ recs /\ loaded s' = 1 /\ (forall q, exists v, @search_user_raw K_default s' q = Ok v) /\
+       (forall k id, nth_error recs k = Some id -> idf s' (Z.of_nat k) = id) /\ (forall x, @on_chain K_default s' x <-> 0 <= x < lenZ recs)) /\
+  (@WF K_default s -> agrees s recs ->
+     exists s', @load_uhash_by K_default p s recs = Ok s' /\ @WF K_default s' /\ number s' = lenZ recs /\ (forall q, exists v, @search_user_raw K_default s' q = Ok v)).
+Proof. exact load_any_process_default. Qed.
+Print Assumptions C04_load_any_process.
+
+(* ... the same for ANY constants: every record with a valid id is stored and indexed; when the file has at most PRE_ALLOCATED_USERS records, every record is *)
+Theorem C04_load_any_process_any_constants : forall (K : consts), consts_ok K -> forall (p : proc) s recs, lenZ recs <= MAXU ->
   (number s = 0 -> loaded s = 0 ->
      exists s', load_uhash_by p s recs = Ok s' /\ WF s' /\ number s' = lenZ recs /\ loaded s' = 1 /\ (forall q, exists v, search_user_raw s' q = Ok v) /\
-       (forall k id, nth_error recs k = Some id -> idf s' (Z.of_nat k) = id) /\ (forall x, on_chain s' x <-> 0 <= x < lenZ recs)) /\
+       (forall k id, nth_error recs k = Some id -> is_valid_id id = true -> idf s' (Z.of_nat k) = id /\ on_chain s' (Z.of_nat k)) /\
+       (lenZ recs <= PREALLOC ->
+          (forall k id, nth_error recs k = Some id -> idf s' (Z.of_nat k) = id) /\ (forall x, on_chain s' x <-> 0 <= x < lenZ recs))) /\
   (WF s -> agrees s recs ->
      exists s', load_uhash_by p s recs = Ok s' /\ WF s' /\ number s' = lenZ recs /\ (forall q, exists v, search_user_raw s' q = Ok v)).
-Proof. exact load_any_process. Qed.
-Print Assumptions C04_load_any_process.
+Proof. exact (@load_any_process). Qed.
+Print Assumptions C04_load_any_process_any_constants.
 
 (* the start-up interleaving / crash point between NewSHM and LoadUHash: the first process created the segment (zeroed, header
    written, nothing loaded); a second process started with or without the create flag attaches to it, is NOT its creator, sees
    an index that is not well-formed (every bucket is the self-loop 0 -> 0), and its LoadUHash terminates with the well-formed
    index of .PASSWDS *)
-Theorem C04_second_process_loads_created_segment : forall (is_create : bool) recs, lenZ recs <= MAXU ->
+Theorem C04_second_process_loads_created_segment : forall (is_create : bool) recs, lenZ recs <= @MAXU K_default ->
+  exists p2 v, @new_shm_existing K_default is_create (snd (@new_shm_create K_default)) = (p2, Attached v) /\ p_is_new (fst (@new_shm_create K_default)) = true /\
+    p_is_new p2 = false /\ v = reset_st /\ ~ @WF K_default v /\
+    exists s', @load_uhash_by K_default p2 v recs = Ok s' /\ @WF K_default s' /\ number s' = lenZ recs /\ loaded s' = 1 /\
+      (forall q, exists u, @search_user_raw K_default s' q = Ok u) /\
+      (forall k id, nth_error recs k = Some id -> idf s' (Z.of_nat k) = id) /\ (forall x, @on_chain K_default s' x <-> 0 <= x < lenZ recs).
+Proof. exact second_process_loads_created_segment_default. Qed.
+Print Assumptions C04_second_process_loads_created_segment.
+
+Theorem C04_second_process_loads_created_segment_any_constants : forall (K : consts), consts_ok K -> forall (is_create : bool) recs, lenZ recs <= MAXU ->
   exists p2 v, new_shm_existing is_create (snd new_shm_create) = (p2, Attached v) /\ p_is_new (fst new_shm_create) = true /\
     p_is_new p2 = false /\ v = reset_st /\ ~ WF v /\
     exists s', load_uhash_by p2 v recs = Ok s' /\ WF s' /\ number s' = lenZ recs /\ loaded s' = 1 /\
       (forall q, exists u, search_user_raw s' q = Ok u) /\
-      (forall k id, nth_error recs k = Some id -> idf s' (Z.of_nat k) = id) /\ (forall x, on_chain s' x <-> 0 <= x < lenZ recs).
-Proof. exact second_process_loads_created_segment. Qed.
-Print Assumptions C04_second_process_loads_created_segment.
+      (forall k id, nth_error recs k = Some id -> is_valid_id id = true -> idf s' (Z.of_nat k) = id /\ on_chain s' (Z.of_nat k)) /\
+      (lenZ recs <= PREALLOC ->
+         (forall k id, nth_error recs k = Some id -> idf s' (Z.of_nat k) = id) /\ (forall x, on_chain s' x <-> 0 <= x < lenZ recs)).
+Proof. exact (@second_process_loads_created_segment). Qed.
+Print Assumptions C04_second_process_loads_created_segment_any_constants.
 
 (* ... and why that decision must follow the segment (Number / Loaded) and not the caller: on the created-but-not-loaded segment the
    on-the-fly branch (checkHash) does not terminate - for every amount of fuel, not just the model's - whatever .PASSWDS holds *)
-Theorem C04_onfly_on_created_segment_hangs :
+Theorem C04_onfly_on_created_segment_hangs : forall (K : consts), consts_ok K ->
   (forall fuel, check_walk fuel reset_st 0 false 0 (tget (head reset_st) 0) = Hang) /\
   (forall recs, fill_uhash reset_st recs true = Hang).
-Proof. exact onfly_on_created_segment_hangs. Qed.
+Proof. exact (@onfly_on_created_segment_hangs). Qed.
 Print Assumptions C04_onfly_on_created_segment_hangs.
 
 (* every history: cold load from anything, then any sequence of SetUserID (any uid), RemoveFromUHash, AddToUHash on a slot
    that is on no chain (the only way the code base calls it), and reloads from an agreeing file *)
-Theorem C04_reachable_wf : forall s, reachable s -> WF s.
-Proof. exact reachable_wf. Qed.
+Theorem C04_reachable_wf : forall (K : consts), consts_ok K -> forall s, reachable s -> WF s.
+Proof. exact (@reachable_wf). Qed.
 Print Assumptions C04_reachable_wf.
 
 (* ... so after every history lookups are exact and terminate *)
-Theorem C04_lookup_exact : forall s, reachable s ->
+Theorem C04_lookup_exact : forall (K : consts), consts_ok K -> forall s, reachable s ->
   (forall q v, search_user_raw s q = Ok v -> v <> 0 -> on_chain s (v - 1) /\ id_eq_ci q (idf s (v - 1)) = true) /\
   (forall x q, on_chain s x -> unique_ci s x -> id_eq_ci q (idf s x) = true -> nth 0 q 0 <> 0 -> search_user_raw s q = Ok (x + 1)) /\
   (forall q, (forall y, on_chain s y -> id_eq_ci q (idf s y) = false) -> search_user_raw s q = Ok 0) /\
   (forall q, exists v, search_user_raw s q = Ok v).
-Proof. exact lookup_exact. Qed.
+Proof. exact (@lookup_exact). Qed.
 Print Assumptions C04_lookup_exact.
 
 (* attach: a second process passes the handshake exactly when version and size match, and then sees the same state,
    so it answers every lookup identically *)
-Theorem C04_attach : forall g v, attach g = Attached v ->
-  seg_version g = cache.SHM_VERSION /\ seg_size g = cache.SHM_RAW_SZ /\ v = seg_body g /\
+Theorem C04_attach : forall (K : consts), consts_ok K -> forall g v, attach g = Attached v ->
+  seg_version g = SHMVER /\ seg_size g = SHMSZ /\ v = seg_body g /\
   (forall q, search_user_raw v q = search_user_raw (seg_body g) q).
-Proof. exact attach_same. Qed.
+Proof. intros K _; exact (@attach_same K). Qed.
 Print Assumptions C04_attach.
 
-Theorem C04_attach_refused : forall g, seg_version g <> cache.SHM_VERSION \/ seg_size g <> cache.SHM_RAW_SZ ->
+Theorem C04_attach_refused : forall (K : consts), consts_ok K -> forall g, seg_version g <> SHMVER \/ seg_size g <> SHMSZ ->
   forall v, attach g <> Attached v.
-Proof. exact attach_refused. Qed.
+Proof. intros K _; exact (@attach_refused K). Qed.
 Print Assumptions C04_attach_refused.
 
 (* every history in which each step - cold load of a segment saying Number = Loaded = 0, SetUserID, RemoveFromUHash, AddToUHash on a
    free slot, reload from an agreeing file - is executed by ANY process (the creator or one that attached with or without the
    create flag, m_attach): the index is well-formed, lookups are exact and terminate, and a further reload by any process returns *)
-Theorem C04_multi_process_exact : forall s, reachable_mp s ->
+Theorem C04_multi_process_exact : forall (K : consts), consts_ok K -> forall s, reachable_mp s ->
   WF s /\
   (forall q v, search_user_raw s q = Ok v -> v <> 0 -> on_chain s (v - 1) /\ id_eq_ci q (idf s (v - 1)) = true) /\
   (forall x q, on_chain s x -> unique_ci s x -> id_eq_ci q (idf s x) = true -> nth 0 q 0 <> 0 -> search_user_raw s q = Ok (x + 1)) /\
   (forall q, (forall y, on_chain s y -> id_eq_ci q (idf s y) = false) -> search_user_raw s q = Ok 0) /\
   (forall q, exists v, search_user_raw s q = Ok v) /\
   (forall (p : proc) recs, lenZ recs <= MAXU -> agrees s recs -> exists s', load_uhash_by p s recs = Ok s' /\ reachable_mp s').
-Proof. exact multi_process_exact. Qed.
+Proof. exact (@multi_process_exact). Qed.
 Print Assumptions C04_multi_process_exact.
+
+(* C-string semantics. An id is the bytes before its first NUL; whatever the rest of the USER_ID_SZ-byte array holds - leftovers of a longer id the buffer held before
+   (a UserID_t reused through CopyFrom, a .PASSWDS userid field reused with strlcpy, a query buffer) - takes part in nothing: two queries that are the same C string
+   get the same answer from DoSearchUserRaw and SearchUserRaw in every state, hash alike, and compare alike with every id on either side of the comparison.
+   (The stored side: C04_search_complete / C04_lookup_exact are stated with id_eq_ci q (idf s x), which reads the stored array up to its first NUL only -
+   C04_match_is_whole_id - so a slot whose array holds leftovers is found by the clean spelling in any letter case.) *)
+Theorem C04_bytes_after_nul_ignored : forall (K : consts) s q q', cprefix q = cprefix q' ->
+  do_search_user_raw s q = do_search_user_raw s q' /\ search_user_raw s q = search_user_raw s q' /\ uhash q = uhash q' /\
+  (forall b, id_eq_ci q b = id_eq_ci q' b) /\ (forall b, id_eq_ci b q = id_eq_ci b q').
+Proof. exact (@search_ignores_bytes_after_nul). Qed.
+Print Assumptions C04_bytes_after_nul_ignored.
